@@ -16,7 +16,7 @@ from collections import Counter
 verd = Counter()
 for s, ir, mr in zip(scs, impl, model):
     verd[ir.verdict] += 1
-    nops = len(s.meta["ops"])
+    nops = len([o for o in s.meta["ops"] if o[0] != 6])
     if ir.verdict != "ok":
         bad += 1
         if bad <= 3: print("VERDICT", ir.verdict, {k: v for k, v in s.meta.items() if k != "ops"}, ir.raw[-400:])
